@@ -325,6 +325,9 @@ for _mask in range(1 << 5):
     for _extra in ((), ('byte',), ('terminal', 'sleep')):
         LIBRARY_SUBSETS.append(('const string gs = "wxyz"; const byte[] gt2 = [104, 105];',
                                 'int n = 5; ' + ' '.join(_USES[k] for k in list(_names) + list(_extra))))
+for _stmt in ('return write(1);', 'return writeln("bye");', 'return gone();', 'return sleep(0);', 'if (false) { return debug(); }', 'return all_is_win();',
+              'try { return !is_defeat(); } undo { }', 'int q = gone();', 'write(gone());', 'gone() ?? gone();', 'int[] z = [gone()];'):
+    ILL_FORMED.append(('empty gone() { write("g"); }', _stmt))
 for _g in ('string g0 = "abc"; byte g1 = g0[3];', 'const string g0 = "abc"; byte g1 = g0[3];', 'const string g0 = "abc"; byte g1 = g0[2];',
            'const int[] g0 = [1, 2]; int g1 = g0[2];', 'const int[] g0 = [1, 2]; int g1 = g0[1]; int g2[g1];', 'const int g0 = 3; int g1 = 7 / (g0 - 3);',
            'const int g0 = 3; int g1[g0 - 4];', 'const string g0 = ""; int g1 = g0.length; byte g2 = g0[g1];'):
